@@ -847,7 +847,7 @@ func (c *Ctx) bufferSizing() {
 			_, n, isF := fieldOfLoad(bo.X)
 			cl := callOf(bo.Y)
 			got = shape(need, 3)
-			okv = isF && n == "len" && strings.Join(leaves(bo.X), ",") == "b.len" && cl != nil && callQName(&cl.Call) == bocPath+".BitString.BitsAvailableForWrite"
+			okv = isF && n == "len" && strings.Join(leaves(bo.X), ",") == "#1.len" && cl != nil && callQName(&cl.Call) == bocPath+".BitString.BitsAvailableForWrite"
 		}
 		// WriteBitString writes bs.len bits from position 0
 		okW := false
